@@ -190,6 +190,7 @@ func zzC15b2PingBacklog() {
 		return nil
 	}
 	c := ZZNewClientConn(tr, nil)
+	vf.Deviations(zzWireDeviations)
 	go c.readReliableLoop()
 	const n = 20
 	base := vf.U32("first.id")
@@ -722,9 +723,20 @@ func zzC12wWrongTypedResponse() {
 // C06.e: three requests of different kinds in flight at once through the public senders; the broker
 // answers in any of the six orders (optionally with a duplicate and an unknown id in between): every
 // caller gets exactly the response bearing its own request id, ids are even and pairwise distinct.
+var zzWireDeviations = 0
+
+func zzC06eThreeInFlightDev2() { zzWireDeviations = 2; zzC06eThreeInFlight() }
+func zzC12dHostileDev2()       { zzWireDeviations = 2; zzC12dHostileSequences() }
+func zzC15b2BacklogDev2()      { zzWireDeviations = 2; zzC15b2PingBacklog() }
+func zzC06eThreeInFlightDev1() { zzWireDeviations = 1; zzC06eThreeInFlight() }
+func zzC06fResponseBurstDev1() { zzWireDeviations = 1; zzC06fResponseBurst() }
+func zzC12dHostileDev1()       { zzWireDeviations = 1; zzC12dHostileSequences() }
+func zzC15b2BacklogDev1()      { zzWireDeviations = 1; zzC15b2PingBacklog() }
+
 func zzC06eThreeInFlight() {
 	tr := ZZNewFakeTransport()
 	c := ZZNewClientConn(tr, nil)
+	vf.Deviations(zzWireDeviations)
 	go c.readRequestLoop()
 	ctx := context.Background()
 	var r1 *message.UpstreamOpenResponse
@@ -795,6 +807,7 @@ func zzC06fResponseBurst() {
 	tr := ZZNewFakeTransport()
 	tr.In = make(chan message.Message, 64)
 	c := ZZNewClientConn(tr, nil)
+	vf.Deviations(zzWireDeviations)
 	go c.readReliableLoop()
 	ctx := context.Background()
 	const n = 14
@@ -865,6 +878,7 @@ func zzC12dHostileSequences() {
 	tr := ZZNewFakeTransport()
 	tr.In = make(chan message.Message, 64)
 	c := ZZNewClientConn(tr, nil)
+	vf.Deviations(zzWireDeviations)
 	go c.readReliableLoop()
 	ctx := context.Background()
 	var pong *message.Pong
